@@ -531,11 +531,9 @@ func (sw *SlidingWindow) checkAndTriggerWindows(watermarkTime time.Time) {
 			debugLogSliding("checkAndTriggerWindows: triggering window [%v, %v) with %d data items",
 				windowStart.UnixMilli(), windowEnd.UnixMilli(), dataInWindow)
 
-			sw.triggerSpecificWindowLocked(slotToTrigger)
-
-			debugLogSliding("checkAndTriggerWindows: window triggered successfully")
-
-			// If allowedLateness > 0, keep window open for late data
+			// If allowedLateness > 0, keep window open for late data. Register it before
+			// triggerSpecificWindowLocked releases the lock for the delivery, so a late row
+			// that arrives while the result is being delivered still finds its window.
 			if allowedLateness > 0 {
 				windowKey := sw.getWindowKey(*slotToTrigger.End)
 				closeTime := slotToTrigger.End.Add(allowedLateness)
@@ -547,6 +545,10 @@ func (sw *SlidingWindow) checkAndTriggerWindows(watermarkTime time.Time) {
 				debugLogSliding("checkAndTriggerWindows: window [%v, %v) kept open for late data until %v",
 					windowStart.UnixMilli(), windowEnd.UnixMilli(), closeTime.UnixMilli())
 			}
+
+			sw.triggerSpecificWindowLocked(slotToTrigger)
+
+			debugLogSliding("checkAndTriggerWindows: window triggered successfully")
 		} else {
 			debugLogSliding("checkAndTriggerWindows: window [%v, %v) has no data, skipping trigger",
 				windowStart.UnixMilli(), windowEnd.UnixMilli())
